@@ -65,6 +65,10 @@ int main(int argc, char** argv) {
         const std::string& v = kv.second;
         size_t nq = std::count(v.begin(), v.end(), '\'');
         qstats["values"]++;
+        { static const char* w[] = {"TYP", "ORDE", "NAXI", "PERIO", "EXTEN", "COMMEN", "SIMPL", "BITPI", "EXTNAM", "HDUNAM", "EN", "HISTOR", "CONTINU", "HIERARC", "BLANK", "XTENSIO", "PCOUN", "GCOUN", "BSCAL", "BZER"};
+          bool nr = kv.first == "T" || kv.first == "E";
+          for (auto x : w) if (kv.first.find(x) != std::string::npos) nr = true;
+          if (nr) qstats["key-near-reserved-name"]++; }
         if (!nq) continue;
         qstats["with-apostrophe"]++;
         if (v.find("''") != std::string::npos) qstats["with-adjacent-apostrophes"]++;
